@@ -11,6 +11,8 @@ mod cmd_fri;
 mod friprov;
 mod toy;
 mod cmd_stark;
+mod real;
+mod cmd_real;
 mod merkle;
 mod hashes;
 mod terms;
@@ -32,6 +34,7 @@ fn main() {
         "queries" => cmd_queries::run(rest),
         "config" => cmd_config::run(rest),
         "fri" => cmd_fri::run(rest),
+        "real-matrix" => cmd_real::run_matrix(rest),
         "stark-replay" => cmd_stark::run_replay(rest),
         "fri-random" => cmd_fri::run_random(rest),
         "fri-highdeg" => cmd_fri::run_highdeg(rest),
